@@ -55,6 +55,14 @@ def linear_configs(tier):
           if len(ds["md"]) + len(ds["rd"]) >= 2 and norm is None:
             out.append(dict(kind="linear", n=n, mono=list(mono), md=[list(p) for p in ds["md"]][::-1],
                             rd=[list(p) for p in ds["rd"]][::-1], shift=ds["shift"], norm=norm))
+  if quick:
+    # both dominance kinds in ONE constraint need >= 4 inputs: a few n=4 configurations in quick too
+    for mono, md, rd, shift in (([1, 1, 1, 1], [(0, 1)], [(2, 3)], 1), ([1, 1, 1, 1], [(1, 0)], [(3, 2)], 2),
+                                ([1, 1, -1, -1], [(0, 1)], [(2, 3)], 0), ([-1, -1, 1, 1], [(3, 2)], [(0, 1)], 1),
+                                ([1, 1, 1, 1], [(0, 1)], [(3, 2)], 0)):
+      for norm in (None, 1):
+        out.append(dict(kind="linear", n=4, mono=list(mono), md=[list(p) for p in md],
+                        rd=[list(p) for p in rd], shift=shift, norm=norm))
   return out
 
 
